@@ -34,6 +34,7 @@ func init() {
 		Workloads: []core.Workload{
 			{Name: "roundtrip", Variant: "plain", N: core.Tiered(8*40, 8*1500), Run: c08Roundtrip},
 			{Name: "selection", Variant: "plain", N: core.Tiered(400, 20000), Run: c08Selection},
+			{Name: "selection-seq", Variant: "plain", N: core.Tiered(150, 6000), Run: c08SelectionSeq},
 			{Name: "blocks", Variant: "plain", N: core.Tiered(150, 5000), Run: c08Blocks},
 			{Name: "create", Variant: "plain", N: core.Tiered(60, 1500), Run: c08Create},
 			{Name: "enumerate", Variant: "plain", N: core.Tiered(9, 9), Run: c08Enumerate},
@@ -364,8 +365,12 @@ func selection[T Num](c *core.Ctx, io *IOBackend[T], b *Backend[T], sc selCase) 
 	}
 	var got Arr[T]
 	var err error
-	if !c.Guard("io-panic", model, func() { got, err = io.Load(file, "/d", sc.Sel) }) {
+	selArg := cloneSel(sc.Sel)
+	if !c.Guard("io-panic", model, func() { got, err = io.Load(file, "/d", selArg) }) {
 		return
+	}
+	if !sameSel(selArg, sc.Sel) {
+		c.Violate("selection-argument-modified", model, fmt.Sprintf("Load changed the caller's selection from %v to %v (dataset shape %v)", sc.Sel, selArg, sc.Dims))
 	}
 	if empty {
 		// error or empty array; no crash
@@ -776,6 +781,8 @@ func runConcurrent(c *core.Ctx, check bool) {
 	var ops []porcupine.Operation
 	var wg sync.WaitGroup
 	start := make(chan struct{})
+	// one whole-dataset selection object shared (read-only) by all clients' full loads
+	sharedSel := [][]int{{0, rows + 2, 1}, {0, cols + 3, 1}}
 	for cl := 0; cl < nClients; cl++ {
 		wg.Add(1)
 		r := core.NewRand(delaySeed, uint64(cl))
@@ -830,6 +837,9 @@ func runConcurrent(c *core.Ctx, check bool) {
 					c0 := r.IntRange(0, cols-1)
 					c1 := r.IntRange(c0+1, cols)
 					sel := [][]int{{r0, r1, 1}, {c0, c1, 1}}
+					if r.Bool(0.3) {
+						sel, r0, r1, c0, c1 = sharedSel, 0, rows, 0, cols
+					}
 					for i := r0; i < r1; i++ {
 						for j := c0; j < c1; j++ {
 							in.Cells = append(in.Cells, i*cols+j)
@@ -899,4 +909,124 @@ func c08Concurrent(c *core.Ctx) {
 func c08ConcurrentRace(c *core.Ctx) {
 	runConcurrent(c, true)
 	c.Count("race_build_histories", 1)
+}
+
+func cloneSel(sel [][]int) [][]int {
+	r := make([][]int, len(sel))
+	for i, s := range sel {
+		if s != nil {
+			r[i] = append([]int{}, s...)
+		}
+	}
+	return r
+}
+
+func sameSel(a, b [][]int) bool {
+	if len(a) != len(b) {
+		return false
+	}
+	for i := range a {
+		if (a[i] == nil) != (b[i] == nil) || !sameShape(a[i], b[i]) {
+			return false
+		}
+	}
+	return true
+}
+
+// c08SelectionSeq: one selection object reused for a sequence of Loads on datasets of different
+// extents (as ow-sim shares one generation slice between references): every Load must return the
+// slice that the ORIGINAL selection describes for that dataset.
+func c08SelectionSeq(c *core.Ctx) {
+	installProbe()
+	nd := c.R.IntRange(1, 2)
+	nds := c.R.IntRange(2, 4)
+	var dsDims [][]int
+	for k := 0; k < nds; k++ {
+		d := make([]int, nd)
+		for i := range d {
+			d[i] = c.R.IntRange(1, 9)
+		}
+		dsDims = append(dsDims, d)
+	}
+	sel := make([][]int, nd)
+	for i := range sel {
+		if c.R.Bool(0.2) {
+			continue
+		}
+		start := c.R.IntRange(0, 3)
+		sel[i] = []int{start, c.R.IntRange(start+1, 12), c.R.IntRange(1, 3)}
+	}
+	order := make([]int, c.R.IntRange(2, 6))
+	for i := range order {
+		order[i] = c.R.Intn(nds)
+	}
+	c.Begin(map[string]interface{}{"model": "io/float64", "datasets": dsDims, "shared_selection": sel, "load_order": order})
+	c.Class(fmt.Sprintf("selection-seq/nd%d/ds%d", nd, nds))
+	io, b := ioBackendFloat64(), backendFloat64()
+	file := c08File(c, "seq")
+	defer os.Remove(file)
+	bufs := make([][]float64, nds)
+	for k, d := range dsDims {
+		bufs[k] = make([]float64, prod(d))
+		for i := range bufs[k] {
+			bufs[k][i] = float64(1000*k + i + 1)
+		}
+		if err := io.Write(file, fmt.Sprintf("/d%d", k), b.FromSlice(bufs[k], cpInts(d))); err != nil {
+			c.Violate("roundtrip-error", "io/float64", err.Error())
+			return
+		}
+	}
+	orig := cloneSel(sel)
+	shared := cloneSel(sel) // the object handed to every Load
+	for step, k := range order {
+		d := dsDims[k]
+		loc, cnt, st := make([]int, nd), make([]int, nd), make([]int, nd)
+		empty := false
+		for i, sl := range orig {
+			if sl == nil {
+				loc[i], cnt[i], st[i] = 0, d[i], 1
+				continue
+			}
+			a, e := minInt(sl[0], d[i]), minInt(sl[1], d[i])
+			n := 0
+			if e > a {
+				n = (e - a + sl[2] - 1) / sl[2]
+			}
+			loc[i], cnt[i], st[i] = a, n, sl[2]
+			if n == 0 {
+				empty = true
+			}
+		}
+		var got Arr[float64]
+		var err error
+		if !c.Guard("io-panic", "io/float64", func() { got, err = io.Load(file, fmt.Sprintf("/d%d", k), shared) }) {
+			return
+		}
+		c.Count("sequence_loads", 1)
+		if empty {
+			continue
+		}
+		if err != nil {
+			c.Violate("selection-error", "io/float64", fmt.Sprintf("load %d of dataset %v with selection %v: %v", step, d, orig, err))
+			return
+		}
+		sh := newShadowRoot[float64](0, d)
+		copy(sh.st.data, bufs[k])
+		want := sh.slice(loc, cnt, st)
+		if !sameShape(got.Shape(), cnt) {
+			c.Violate("selection-shape", "io/float64", fmt.Sprintf("load %d in the sequence %v: selection %v of dataset shape %v gave shape %v, expected %v (the selection object now reads %v)", step, order, orig, d, got.Shape(), cnt, shared), "sequence", "true")
+			return
+		}
+		wv := want.values()
+		for f := range wv {
+			if g := got.Get(unflatten(cnt, f)); g != wv[f] {
+				c.Violate("selection-values", "io/float64", fmt.Sprintf("load %d in the sequence: element %v is %v, expected %v", step, unflatten(cnt, f), g, wv[f]), "sequence", "true")
+				return
+			}
+		}
+	}
+	if !sameSel(shared, orig) {
+		c.Violate("selection-argument-modified", "io/float64", fmt.Sprintf("the Loads changed the caller's selection from %v to %v", orig, shared))
+	}
+	probeReport(c)
 }
